@@ -120,3 +120,24 @@ HEAP_HEADERS["C18"] = ("From CppUVerif Require Import lib.CSem lib.CMem lib.CHea
                        "setAllocator and createInternalCacheNodes/destroyInternalCacheNode; the calls on the underlying allocator are ghost events (evs) "
                        "numbered by the ghost counter nx; sizeof of the two records are parameters of the file *)\n"
                        "Definition sizeof_SimpleStringMemoryBlock : Z := 16.\nDefinition sizeof_SimpleStringInternalCacheNode : Z := 24.\n")
+
+# ------------------------------------------------------------------ C15: FailableMemoryAllocator and its pending-failure list
+TMA = "src/CppUTest/TestMemoryAllocator.cpp"
+_C15N = ["init", "failAtAllocNumber", "failNthAllocAt", "shouldFail"]
+_C15A = ["failAllocNumber", "failNthAllocAt", "alloc_memory", "clearFailedAllocs"]
+_C15C = {"init": {"fn": "src_fnode_init", "method": True}, "failAtAllocNumber": {"fn": "src_fnode_failAtAllocNumber", "method": True},
+         "shouldFail": {"fn": "src_fnode_shouldFail", "method": True},
+         # file names are compared by StrCmp; here a file name is an opaque integer that identifies the text (see C15_HeapTie.v)
+         "StrCmp": "c_ne {0} {1}",
+         "allocMemoryLeakNode": {"alloc": True}, "free_memory": {"free": True}}
+_C15CN = dict(_C15C); _C15CN["failNthAllocAt"] = {"fn": "src_fnode_failNthAllocAt", "method": True}
+_C15CA = dict(_C15CN); _C15CA["alloc_memory"] = {"alloc": True}
+HEAP_RECORDS["C15"] = [["LocationToFailAllocNode", TMA], ["FailableMemoryAllocator", TMA, "own"]]
+_G15 = [["evs", "list hev"], ["nx", "Z"]]
+HEAP_GROUPS["C15"] = ([dict(file=TMA, name="LocationToFailAllocNode::" + n, coq="src_fnode_" + n, calls=_C15CN, ghosts=_G15) for n in _C15N] +
+                      [dict(file=TMA, name="FailableMemoryAllocator::" + n, coq="src_fail_" + n, calls=_C15CA, ghosts=_G15,
+                            sizeof={"LocationToFailAllocNode": "sizeof_LocationToFailAllocNode"}) for n in _C15A])
+HEAP_HEADERS["C15"] = ("From CppUVerif Require Import lib.CSem lib.CMem lib.CHeap.\nLocal Open Scope Z_scope.\n"
+                       "(* translated by tools/cxx2heap.py: LocationToFailAllocNode (every member function) and the list-walking member functions of "
+                       "FailableMemoryAllocator; a source file name is an opaque integer (StrCmp(a, b) != 0 is a <> b); the allocations it "
+                       "lets through and the nodes it obtains / releases are ghost events *)\nDefinition sizeof_LocationToFailAllocNode : Z := 32.\n")
